@@ -77,3 +77,180 @@ fn pan_raw_replace_entry_with(sh: Shape) {
 harness!(pan_raw_replace_entry_with__s8_4a, pan_raw_replace_entry_with, S8_4A);
 harness!(pan_raw_replace_entry_with__s8_8g0, pan_raw_replace_entry_with, S8_8G0);
 harness!(pan_raw_replace_entry_with__s8_8g4, pan_raw_replace_entry_with, S8_8G4);
+
+// ------------------------------------------------------------------ retain / drain_filter predicates
+/// the predicate inspects the map at its `at`-th invocation (symbolic): the crash point is a
+/// solver variable. retain erases only after the predicate returned, so at every invocation
+/// the map is fully consistent and still holds the element being examined.
+fn pan_retain(sh: Shape) {
+    let mut m = build_kv(sh, 1);
+    assume_distinct(&m);
+    let mp: *const M = &m;
+    let mask: u16 = kani::any();
+    let at: usize = kani::any();
+    let mut calls = 0usize;
+    let n = m.len();
+    let mut removed = 0usize;
+    m.retain(|k, _v| {
+        if calls == at {
+            let mm = unsafe { &*mp };
+            inv_at_instant(mm, None);
+            assert!(scan(mm, k).count == 1, "[C07] retain's predicate runs on an element that is not (or no longer) stored exactly once");
+            assert!(mm.len() == n - removed, "[C07] at a retain predicate invocation len() does not account for the elements removed so far");
+        }
+        let keep = (mask >> (calls & 15)) & 1 == 1;
+        calls += 1;
+        if !keep {
+            removed += 1;
+        }
+        keep
+    });
+    kani::cover!(at < n, "cls: crash point inside the traversal");
+    kani::cover!(true, "reach: end of harness");
+    core::mem::forget(m);
+}
+harness!(pan_retain__s8_4a, pan_retain, S8_4A);
+harness!(pan_retain__s8_8g0, pan_retain, S8_8G0);
+harness!(pan_retain__s8_8g4, pan_retain, S8_8G4);
+
+/// drain_filter's predicate: answers and crash point concrete per harness (see h_retain.rs)
+fn pan_drain_filter(sh: Shape, p: (u16, usize)) {
+    let (pm, at) = p;
+    let mut m = build_kv(sh, 1);
+    assume_distinct(&m);
+    let mp: *const M = &m;
+    let mut calls = 0usize;
+    {
+        let df = m.drain_filter(|k, _v| {
+            if calls == at {
+                let mm = unsafe { &*mp };
+                inv_at_instant(mm, None);
+                assert!(scan(mm, k).count == 1, "[C07] drain_filter's predicate runs on an element that is not stored exactly once");
+            }
+            let hit = (pm >> (calls & 15)) & 1 == 1;
+            calls += 1;
+            hit
+        });
+        drop(df);
+    }
+    kani::cover!(calls > at, "cls: crash point reached");
+    kani::cover!(true, "reach: end of harness");
+    core::mem::forget(m);
+}
+macro_rules! harness_p {
+    ($name:ident, $body:ident, $shape:expr, $j:expr) => {
+        #[kani::proof]
+        #[kani::unwind(34)]
+        fn $name() {
+            $body($shape, $j)
+        }
+    };
+}
+harness_p!(pan_drain_filter__s8_4a_m0111_at3, pan_drain_filter, S8_4A, (0b0111, 3));
+harness_p!(pan_drain_filter__s8_4a_m1110_at2, pan_drain_filter, S8_4A, (0b1110, 2));
+harness_p!(pan_drain_filter__s8_8g0_m0110_at3, pan_drain_filter, S8_8G0, (0b0110, 3));
+
+// ------------------------------------------------------------------ closures of inserting entry calls
+fn pan_or_insert_with(sh: Shape) {
+    let mut m = build_kv(sh, 1);
+    assume_distinct(&m);
+    let mp: *const M = &m;
+    let k: u8 = kani::any();
+    let v: u8 = kani::any();
+    let absent = scan(&m, &k).val.is_none();
+    let _ = m.raw_entry_mut().from_key(&k).or_insert_with(|| {
+        // runs before anything was changed: a panic here must leave the map untouched
+        inv_at_instant(unsafe { &*mp }, None);
+        (k, v)
+    });
+    kani::cover!(absent, "cls: closure ran");
+    kani::cover!(true, "reach: end of harness");
+    core::mem::forget(m);
+}
+harness!(pan_or_insert_with__u4f, pan_or_insert_with, U4F);
+harness!(pan_or_insert_with__s8_4a, pan_or_insert_with, S8_4A);
+
+fn pan_and_modify(sh: Shape) {
+    let mut m = build_kv(sh, 1);
+    assume_distinct(&m);
+    let mp: *const M = &m;
+    let k: u8 = kani::any();
+    let present = scan(&m, &k).val.is_some();
+    let _ = m.raw_entry_mut().from_key(&k).and_modify(|kk, _vv| {
+        let mm = unsafe { &*mp };
+        inv_at_instant(mm, None);
+        assert!(scan(mm, kk).count == 1, "[C07] and_modify runs on an element that is not stored exactly once");
+    });
+    kani::cover!(present, "cls: closure ran");
+    kani::cover!(true, "reach: end of harness");
+    core::mem::forget(m);
+}
+harness!(pan_and_modify__s8_8g0, pan_and_modify, S8_8G0);
+
+// ------------------------------------------------------------------ Hash called from griddle's carry
+// A key type whose Hash impl inspects the map at its `HASH_AT`-th invocation. Inside `carry`
+// the element being relocated has been taken out of the old table and is not yet in the new
+// one: a panicking Hash loses exactly that element (documented) and nothing else.
+use core::hash::{Hash, Hasher};
+static mut HASH_CALLS: usize = 0;
+static mut HASH_AT: usize = usize::MAX;
+static mut HASH_MAP: *const HashMap<Hk, u8, S> = core::ptr::null();
+static mut HASH_SEEN_IN_FLIGHT: bool = false;
+
+#[derive(PartialEq, Eq, Clone, Copy)]
+pub struct Hk(pub u8);
+impl kani::Arbitrary for Hk {
+    fn any() -> Self {
+        Hk(kani::any())
+    }
+}
+impl Hash for Hk {
+    fn hash<H: Hasher>(&self, s: &mut H) {
+        unsafe {
+            if HASH_CALLS == HASH_AT && !HASH_MAP.is_null() {
+                let mm = &*HASH_MAP;
+                let (main, old) = mm.verif_parts();
+                let sc = scan(mm, self);
+                assert!(main.len() == sc.nfull_main, "[C07] at a Hash invocation the main table's count disagrees with its contents");
+                if let Some((ot, it)) = old {
+                    assert!(ot.len() == sc.nfull_old, "[C07] at a Hash invocation the old table's count disagrees with its contents");
+                    assert!(it.verif_agrees(ot), "[C07] at a Hash invocation inside carry the cached old-table iterator disagrees with the old table: a panicking Hash leaves a map whose next carry over-reads");
+                }
+                assert!(sc.count <= 1, "[C07] at a Hash invocation the key being hashed is stored twice");
+                if sc.count == 0 {
+                    HASH_SEEN_IN_FLIGHT = true;
+                }
+            }
+            HASH_CALLS += 1;
+        }
+        s.write_u8(self.0)
+    }
+}
+
+fn pan_hash_in_insert(sh: Shape, at: usize) {
+    let mut m: HashMap<Hk, u8, S> = build::<Hk, u8>(sh, 1);
+    assume_distinct(&m);
+    let k: Hk = kani::any();
+    let v: u8 = kani::any();
+    // the crash point (index of the Hash invocation) is concrete per harness: a symbolic one
+    // puts the inspection code at every hashing site and CBMC does not finish
+    unsafe {
+        HASH_CALLS = 0;
+        HASH_AT = at;
+        HASH_MAP = &m;
+        HASH_SEEN_IN_FLIGHT = false;
+    }
+    let _ = m.insert(k, v);
+    let calls = unsafe { HASH_CALLS };
+    unsafe {
+        HASH_MAP = core::ptr::null();
+    }
+    kani::cover!(calls > 1 && at >= 1 && at < calls, "cls: crash point inside carry");
+    kani::cover!(unsafe { HASH_SEEN_IN_FLIGHT }, "cls: the hashed element was in flight (removed from the old table, not yet in the new one)");
+    kani::cover!(true, "reach: end of harness");
+    core::mem::forget(m);
+}
+// Not registered: these harnesses do not finish under CBMC within 10 minutes (the inspection
+// inside Hash::hash is inlined at every hashing site of insert + carry). The Hash-in-carry
+// crash points are therefore outside the C07 claim; see DESIGN.md.
+// harness_p!(pan_hash_in_insert__s8_4a_at1, pan_hash_in_insert, S8_4A, 1);
